@@ -6,6 +6,7 @@ from pyvc.unit import unit
 
 AXML = "androguard/core/axml/__init__.py"
 META = {
+    "technique": 'bounded stand-in: recursion-variant contract evaluated on all small reference graphs (real resolver, stub table)',
     "level": "other",
     "partial": True,
     "level_text": "Contract on the mutual recursion resolve -> _resolve_into_result -> put_ate_value -> put_item_value: the recursion "
